@@ -33,12 +33,18 @@ def _wrap(b):
     return b"[" + b + b"]"
 
 
+_ESC = {}      # per-call cache: the reference escaping of the value is computed once per path
+
+
 def E(v):
-    return ref_escape(v)
+    if _ESC.get("v") is not v:
+        _ESC["v"] = v
+        _ESC["e"] = ref_escape(v)
+    return _ESC["e"]
 
 
 def M(v):
-    return "\xab" + ref_escape(v) + "\xbb"
+    return "\xab" + E(v) + "\xbb"
 
 
 def R(v):
